@@ -26,9 +26,14 @@ fn bits_eq(a: &[f64], b: &[f64]) -> bool {
 /// Drive one history against the sequential model (cursor k over the reference waveform W).
 /// Returns (violation signature, detail) on the first disagreement.
 pub fn run_history(engine: &Engine, labels: &[Label], w: &[f64], ops: &[Op]) -> Result<(usize, bool), (String, J)> {
+    let g = engine.generator(labels.to_vec()).map_err(|e| ("generator-err".to_string(), J::from(format!("{}", e))))?;
+    run_history_on(engine, g, w, ops)
+}
+
+/// the same for a generator that was opened by the caller (from lines, with alignment, ...)
+pub fn run_history_on(engine: &Engine, mut g: jbonsai::speech::SpeechGenerator, w: &[f64], ops: &[Op]) -> Result<(usize, bool), (String, J)> {
     let fp = engine.condition.get_fperiod();
     let f = w.len() / fp;
-    let mut g = engine.generator(labels.to_vec()).map_err(|e| ("generator-err".to_string(), J::from(format!("{}", e))))?;
     if g.fperiod() != fp {
         return Err(("fperiod-accessor".into(), J::obj().set("got", g.fperiod()).set("expected", fp)));
     }
@@ -282,5 +287,114 @@ pub fn run(ctx: &mut Ctx) {
             check_history(ctx, &engine, &labels, &w, &ops, &descr);
         }
         ctx.count("reference_frames", f as f64);
+    });
+
+    // ---- phoneme alignment on: the utterance is handed over as lines (time-stamped, partly
+    // stamped, or without any time while the speed is not 1), to synthesize() and to generator()
+    // alike; the one-shot waveform is the concatenation of the steps there as well
+    let n = ctx.n(120, 2000);
+    ctx.run_cases("aligned", n, false, |ctx, rng, idx| {
+        let (engine, descr): (Engine, String) = if idx % 2 == 0 {
+            (bundled.clone(), "bundled".into())
+        } else {
+            let o = VoiceOpts::random(rng);
+            match load_synthetic(&env, &o, rng) {
+                Ok((e, _)) => (e, format!("synthetic[{}]", o.describe())),
+                Err(e) => {
+                    ctx.inconclusive(&e);
+                    return;
+                }
+            }
+        };
+        let mut engine = engine;
+        let cond = Cond::random(rng, engine.voices.global_metadata().num_streams, false);
+        cond.apply(&mut engine);
+        engine.condition.set_phoneme_alignment_flag(true);
+        if idx % 3 == 0 {
+            engine.condition.set_speed(*rng.pick(&[0.5, 1.3, 2.0, 0.77, 3.1]));
+        }
+        let labels = env.corpus.random_utterance(rng, 1, if q { 6 } else { 20 });
+        let rate = engine.condition.get_sampling_frequency();
+        let fp = engine.condition.get_fperiod();
+        let nstate = engine.voices.global_metadata().num_states;
+        let unit = fp as f64 * 1e7 / rate as f64;
+        let lines: Vec<String> = match idx % 4 {
+            // no time at all
+            0 => to_strings(&labels),
+            // every label stamped; the last one (or a random one) shorter than its states
+            1 | 2 => {
+                let mut t = 0.0f64;
+                let short = if idx % 4 == 1 { labels.len() - 1 } else { rng.below(labels.len()) };
+                labels
+                    .iter()
+                    .enumerate()
+                    .map(|(i, l)| {
+                        let frames = if i == short { rng.range(0, nstate.max(2) - 1) as f64 + 0.4 } else { rng.range(nstate, 30) as f64 };
+                        let s = t;
+                        t += frames * unit;
+                        format!("{} {} {}", s.round() as u64, t.round() as u64, l)
+                    })
+                    .collect()
+            }
+            _ => crate::mon::c01::annotate(rng, &labels, rate, fp),
+        };
+        let w = match guard(|| engine.synthesize(lines.clone())) {
+            Ok(Ok(w)) => w,
+            Ok(Err(e)) => {
+                ctx.violation("reference-synthesis-err", J::from(format!("{}", e)));
+                return;
+            }
+            Err(p) => {
+                ctx.violation(&p.sig(), J::obj().set("what", "one-shot synthesis panicked").set("voice", descr.clone()));
+                return;
+            }
+        };
+        let f = w.len() / fp;
+        for round in 0..2 {
+            let cut = match (round, rng.below(3)) {
+                (0, _) => f + 1,
+                (_, 0) => 0,
+                _ => rng.below(f + 1),
+            };
+            let mut ops = Vec::new();
+            for _ in 0..cut {
+                ops.push(Op::Step(rng.range(fp, 2 * fp)));
+            }
+            ops.push(Op::Frames);
+            ops.push(Op::Finish);
+            let r = guard(|| match engine.generator(lines.clone()) {
+                Ok(g) => run_history_on(&engine, g, &w, &ops),
+                Err(e) => Err(("generator-err".to_string(), J::from(format!("{}", e)))),
+            });
+            let detail = |d: J| {
+                J::obj()
+                    .set("voice", descr.clone())
+                    .set("frames_total", f)
+                    .set("fperiod", fp)
+                    .set("speed", engine.condition.get_speed())
+                    .set("alignment", true)
+                    .set("lines", J::Arr(lines.iter().take(4).map(|l| J::Str(l.clone())).collect()))
+                    .set("history", ops_json(&ops))
+                    .set("observed", d)
+            };
+            match r {
+                Err(p) => {
+                    if p.in_target() {
+                        ctx.violation(&p.sig(), detail(J::obj().set("panic", format!("{}:{} {}", p.file, p.line, p.msg))));
+                    } else {
+                        ctx.inconclusive(&format!("harness panic {}:{} {}", p.file, p.line, p.msg));
+                    }
+                    return;
+                }
+                Ok(Err((sig, d))) => {
+                    ctx.violation(&sig, detail(d));
+                    return;
+                }
+                Ok(Ok(_)) => {
+                    ctx.count("aligned_histories_ok", 1.0);
+                }
+            }
+        }
+        ctx.nontrivial(mix(&[0xa11, hash_str(&descr), f as u64, (idx % 4) as u64]));
     });
 }
